@@ -156,6 +156,7 @@ func newMachine(w *World, s *Solver, cfg *RunConfig, prefix []Decision) *Machine
 		side: map[interface{}]interface{}{},
 	}
 	m.res = &PathResult{Covers: map[string]bool{}, Proved: map[string]int{}, Unknown: map[string]int{}, Assumes: map[string]bool{}, Bounds: map[string]int{}, Notes: map[string]bool{}}
+	m.installScaledHook() // model_zz_grpa_scaled.go
 	main := m.newThread()
 	main.isMain = true
 	main.started = true
